@@ -15,7 +15,11 @@ pub fn run(args: &[String]) -> String {
             let r = crate::prog_find::search(pid);
             if r.contains("\"found\":true") { r } else { alloc_model::search(seed, 4000) }
         }
-        "C12" | "C14" | "C03" => alloc_model::search(seed, 4000),
+        "C03" => {
+            let r = crate::prog_find::search(pid);
+            if r.contains("\"found\":true") { r } else { alloc_model::search(seed, 4000) }
+        }
+        "C12" | "C14" => alloc_model::search(seed, 4000),
         "C29" => serde_find::limit_search(seed),
         "C15" => serde_find::roundtrip_search(seed),
         "C16" | "C22" => {
